@@ -4,15 +4,32 @@ From RV Require Export Base.Util Base.IntStr Model.RolloutSM Model.TrafficMgr Mo
 
 Record trcase := {
   x_inner : ro_case; x_strategies : list strategy; x_zero_grace : bool; x_gateway_fails : bool; x_net : net; x_pending : graces;
-  x_obs_net : net; x_obs_writes : list string; x_obs_pending : list gaction
+  x_obs_net : net; x_obs_writes : list string; x_obs_pending : list gaction;
+  x_wl_read_fails : bool      (* fault injection: the first read of the workload fails in this reconcile *)
 }.
 Definition case := trcase.
 
 Definition tspec (c : case) : tr_spec :=
   {| ts_sp := rc_spec (x_inner c); ts_strategies := x_strategies c; ts_refs := true; ts_zero_grace := x_zero_grace c; ts_gateway_fails := x_gateway_fails c |}.
 
+(* a reconcile whose workload lookup fails stops right after the finalizer handling: an error, nothing written *)
+Definition read_failed (c : case) : tr_res :=
+  let i := x_inner c in let sp := rc_spec i in
+  let fin := if rs_deleting sp then (if match rp_term (rc_status i) with Some true => true | _ => false end then false else rs_finalizer sp) else true in
+  TrOut {| t_out := {| o_status := None; o_br := rc_br i; o_remove_progress_anno := false; o_finalizer := fin; o_requeue := false; o_err := true |};
+           t_writes := []; t_graces := x_pending c |}.
 Definition model (c : case) : tr_res :=
-  let i := x_inner c in reconcile_tr (tspec c) (rc_status i) (rc_wl i) (rc_br i) (x_net c) (x_pending c).
+  let i := x_inner c in
+  if x_wl_read_fails c then read_failed c else reconcile_tr (tspec c) (rc_status i) (rc_wl i) (rc_br i) (x_net c) (x_pending c).
+
+(* C06: "any individual API call fails": a failed read of the workload must not be papered over -- the reconcile reports the
+   error and has changed nothing (status, BatchRelease, network), so the retry starts from the same state *)
+Definition c06_failed_read_changes_nothing (c : case) : bool :=
+  let i := x_inner c in let o := rc_obs i in
+  if x_wl_read_fails c && negb (ob_panic o) && negb (ob_gone o) then
+    ob_err o && status_matches (rc_spec i) (rc_status i) (ob_status o) && opt_eqb br_eqb (rc_br i) (ob_br o) &&
+    match x_obs_writes c with [] => true | _ => false end
+  else true.
 
 Definition corresponds_tr (c : case) : bool :=
   let i := x_inner c in let o := rc_obs i in
@@ -318,6 +335,7 @@ Definition judge (c : case) : list verdict :=
     clause "C04_no_write_routes_into_a_void" (c04_writes_safe c);
     clause "C04_stable_unpinned_before_a_step_that_replaces_every_stable_pod" (c04_unpinned_before_full_step c);
     clause "C06_wait_survives_restart" (c06_wait_survives_restart c);
+    clause "C06_failed_workload_read_changes_nothing" (c06_failed_read_changes_nothing c);
     (* C06: the same safety statement read as a crash statement -- from ANY half-configured network a crash or a failed call can
        leave behind (canary Service in place but stable Service not yet pinned, ...), with any in-memory state, the next
        reconcile writes a route only once both Services are in place *)
